@@ -20,7 +20,7 @@ def gen_doc(seed):
         nc = 0
         for s in ch.doc:
             for t in s.trans:
-                if t.events: t.events = [rng.choice(['e1', 'e2', 'e3'])]
+                if t.events: t.events = [rng.choice(['e1', 'e2', 'e3', 'e1', 'e2', 'e1.a', 'e1.*', 'e2.b.*', 'e3.', '*'])]
                 if t.cond is not None:
                     nc += 1
                     if nc > 6: t.cond = None
@@ -36,8 +36,10 @@ def check_doc(ch, text):
     idx['root'] = 0
     real = [(i, t) for i, t in enumerate(trans) if not t['pseudo']]
     condt = [(i, t) for i, t in real if t['t'].cond is not None]
-    events = sorted(set(e for i, t in real for e in (t['t'].events or [])))
-    ev_sigs = dict((e, 'event_%s_sig' % e) for e in events)
+    from vf.checks.c12_behav import escape_macro
+    strip = lambda d: d[:-2] if d.endswith('.*') else d[:-1] if d.endswith('.') else d
+    events = sorted(set(strip(e) for i, t in real for e in (t['t'].events or []) if e != '*'))    # the event names the generator knows
+    ev_sigs = dict((e, 'event_%s_sig' % escape_macro(e)) for e in events)
     for e, sname in ev_sigs.items():
         if sname not in net.inputs and sname not in net.eq:
             pass   # an event no transition resolves to; the signal is simply unused
